@@ -19,6 +19,7 @@ from ._template import Template
 
 
 import enum
+import fractions
 
 import typing
 
@@ -148,7 +149,9 @@ class SFixed(Template[_FixedTemplateArg], AssignableType):
     @classmethod
     @pyeval
     def _adjust_val(cls, val):
-        return int(val / 2**cls._exp)
+        # exact arithmetic, a division of floats looses the
+        # least significant bits of integers larger than 2**53
+        return int(fractions.Fraction(val) / fractions.Fraction(2) ** cls._exp)
 
     @pyeval
     def __repr__(self):
@@ -529,7 +532,9 @@ class UFixed(Template[_FixedTemplateArg], AssignableType):
     @classmethod
     @pyeval
     def _adjust_val(cls, val):
-        return int(val / 2**cls._exp)
+        # exact arithmetic, a division of floats looses the
+        # least significant bits of integers larger than 2**53
+        return int(fractions.Fraction(val) / fractions.Fraction(2) ** cls._exp)
 
     @pyeval
     def __repr__(self):
